@@ -16,7 +16,8 @@
 //	recoverReadsAnc / recoverClears  _recover: which field is read, and that it is set to nil afterwards
 //	panicBoxed                     _panic: `panic(value(f))` (the reflect.Value: true) or `panic(x.Interface())` (false)
 //	panicDeferrable                _panic is generated through genBuiltinDeferWrapper (false: it assigns n.exec itself)
-//	closureAncIsClone / closureLocksDefiner  getFunc: `fr := f.clone()` + `newFrame(fr, …)`; `f.mutex.Lock()` in the wrapper
+//	closureAncIsClone / closureLocksDefiner  getFunc: `fr := f.clone()` + `newFrame(fr, …)` or `newCallFrame(fr, …)` (newCallFrame
+//	                               keeping the ancestor it is given); `f.mutex.Lock()` inside the wrapper
 //	executeRecovers / executeCarriesValue  Execute: deferred recover() building Panic{Value: r}
 //
 // Anything that is not recognised is emitted as a value that cannot equal the expectation.
@@ -142,6 +143,35 @@ func callVariadicShape(fd *ast.FuncDecl) bool {
 		return false
 	}
 	return str(fd.Body.List[1]) == "return v.Call(in)"
+}
+
+// callFrameKeepsAnc: newCallFrame(anc *frame, length int) builds its frame with `f := newFrame(anc, length, …)`, never assigns
+// f.anc and returns f — the ancestor of the per-call frame is the frame it is given (run id and cancellation channel come
+// from the root frame). Set in main.
+var callFrameKeepsAnc bool
+
+func callFrameShape(fd *ast.FuncDecl) bool {
+	if fd == nil || fd.Body == nil || len(fd.Body.List) == 0 {
+		return false
+	}
+	if ps := fd.Type.Params; ps == nil || len(ps.List) != 2 || len(ps.List[0].Names) != 1 || len(ps.List[1].Names) != 1 ||
+		ps.List[0].Names[0].Name != "anc" || str(ps.List[0].Type) != "*frame" || ps.List[1].Names[0].Name != "length" {
+		return false
+	}
+	made, bad := 0, false
+	ast.Inspect(fd, func(m ast.Node) bool {
+		if as, ok := m.(*ast.AssignStmt); ok && len(as.Lhs) == 1 && len(as.Rhs) == 1 {
+			lhs := str(as.Lhs[0])
+			if c, ok := as.Rhs[0].(*ast.CallExpr); ok && lhs == "f" && str(c.Fun) == "newFrame" && len(c.Args) == 3 &&
+				str(c.Args[0]) == "anc" && str(c.Args[1]) == "length" {
+				made++
+			} else if lhs == "f" || lhs == "f.anc" || lhs == "anc" {
+				bad = true
+			}
+		}
+		return true
+	})
+	return made == 1 && !bad && str(fd.Body.List[len(fd.Body.List)-1]) == "return f"
 }
 
 // deferCallSliceShape: deferCallSlice(fn) ends in
@@ -366,7 +396,7 @@ func main() {
 			strings.Trim(common.HashTable(fsetRun, run, [][2]string{{"", "_recover"}, {"", "_panic"},
 				{"", "genBuiltinDeferWrapper"}, {"", "genFunctionWrapper"}, {"", "copyDeferArg"}, {"", "runDeferred"}, {"", "callVariadic"}, {"", "deferCallSlice"}, {"", "getFunc"}}), "[]"),
 			strings.Trim(common.HashTable(fsetProg, prog, [][2]string{{"Interpreter", "Execute"}}), "[]"),
-			strings.Trim(common.HashTable(fsetInterp, interpFile, [][2]string{{"", "newFrame"}, {"frame", "clone"}}), "[]"),
+			strings.Trim(common.HashTable(fsetInterp, interpFile, [][2]string{{"", "newFrame"}, {"", "newCallFrame"}, {"frame", "clone"}}), "[]"),
 			fmt.Sprintf("(%s, %s)", common.LeanStr("runCfg: deferred function"), common.LeanStr(blockHash(firstDefer(common.FindFunc(run, "", "runCfg"))))),
 			fmt.Sprintf("(%s, %s)", common.LeanStr("call: defer branch"), common.LeanStr(blockHash(deferBranchOfCall(common.FindFunc(run, "", "call"))))),
 			fmt.Sprintf("(%s, %s)", common.LeanStr("callBin: defer clause"), common.LeanStr(blockHash(deferClauseOfCallBin(common.FindFunc(run, "", "callBin"))))),
@@ -376,6 +406,8 @@ func main() {
 		pCall := prependFact(common.FindFunc(run, "", "call"), "call")
 		pBin := prependFact(common.FindFunc(run, "", "callBin"), "callBin")
 		pBuiltin := prependFact(common.FindFunc(run, "", "genBuiltinDeferWrapper"), "genBuiltinDeferWrapper")
+
+		callFrameKeepsAnc = callFrameShape(common.FindFunc(interpFile, "", "newCallFrame"))
 
 		// --- deferred calls written with an ellipsis
 		callVariadicIsCall = callVariadicShape(common.FindFunc(run, "", "callVariadic"))
@@ -533,6 +565,9 @@ func main() {
 							ast.Inspect(fl, func(m ast.Node) bool {
 								if c, ok := m.(*ast.CallExpr); ok {
 									if str(c.Fun) == "newFrame" && len(c.Args) == 3 {
+										newFrameArg += str(c.Args[0]) + ";"
+									}
+									if str(c.Fun) == "newCallFrame" && len(c.Args) == 2 && callFrameKeepsAnc {
 										newFrameArg += str(c.Args[0]) + ";"
 									}
 									if str(c.Fun) == "f.mutex.Lock" {
